@@ -671,12 +671,19 @@ class MirProgram:
                         if not on:
                             skip = True
                 item2 = re.sub(r"#\[[^\]]*\]", "", item).strip()
-                mm = re.match(r"(?:pub(?:\([^)]*\))?\s+)?(\w+)\s*:", item2)
+                mm = re.match(r"(?:pub(?:\([^)]*\))?\s+)?(\w+)\s*:\s*(.*)$", item2, re.S)
                 if mm and not skip:
                     res.append(mm.group(1))
+                    self._enum_cache.setdefault(("ftypes", name), {})[mm.group(1)] = " ".join(mm.group(2).split())
             break
         self._enum_cache[key] = res
         return res
+
+    def struct_field_types(self, ty: str):
+        """field name -> source type text (after struct_fields has parsed the definition)"""
+        self.struct_fields(ty)
+        name = re.sub(r"<.*>", "", ty).strip().split("::")[-1]
+        return self._enum_cache.get(("ftypes", name), {})
 
     # --- bodies
     def body(self, name: str) -> Body:
